@@ -63,3 +63,23 @@ package delegation
 //@   requires t != nil
 //@   ensures [C10] wf: (result == nil) == wfDlg(t)
 //@   assigns [C20] nothing
+//@
+//@ pure func inSafeRange(p *int64) bool = p == nil || (-9007199254740991 <= *p && *p <= 9007199254740991)
+//@
+//@ func tokenFromModel
+//@   requires m.Pol != nil
+//@   ensures [C10] wellformed: result1 == nil ==> result0 != nil && wfDlg(result0)
+//@   ensures [C10] command: result1 == nil ==> validCmd(string(result0.command)) && string(result0.command) == m.Cmd
+//@   ensures [C10] times: result1 == nil ==> inSafeRange(m.Nbf) && inSafeRange(m.Exp)
+//@   ensures [C10] policyints: result1 == nil ==> intsInBounds(m.Pol)
+//@   ensures [C10] fields: result1 == nil ==> hasPrefix(m.Iss, "did:key:") && hasPrefix(m.Aud, "did:key:") && result0.nonce == m.Nonce
+//@
+//@ func New
+//@   requires forall i int :: 0 <= i && i < len(opts) ==> opts[i] != nil
+//@   ensures [C10] wellformed: result1 == nil ==> result0 != nil && wfDlg(result0)
+//@   loop 0: invariant 0 <= k && k <= len(opts) && tkn != nil && fresh(tkn)
+//@           decreases len(opts) - k
+//@ func Root
+//@   requires forall i int :: 0 <= i && i < len(opts) ==> opts[i] != nil
+//@   assigns opts
+//@   ensures [C10] wellformed: result1 == nil ==> result0 != nil && wfDlg(result0)
